@@ -17,11 +17,11 @@ CHECKS = {
          "Exploration: generated (ring geometry x read windows x write/read history) triples; every read of sum/qps/qps_previous/avg_rt/min_rt and raw ring counts for all five event kinds is compared with a model that computes the window from the event list by definition; unservable windows must be refused, tiling windows accepted.",
          "Trusted: hook re-exports of the crate-private window types, virtual clock for *_now readers; ambiguous windows (neither must-refuse nor canonical) may go either way but must count exactly if accepted.",
          "5/C02"),
- "C04": ("proptest build/exit histories over several resources vs in-flight + event-list model compared after every step",
+ "C04": ("proptest build/exit histories over several resources vs in-flight + event-list model compared after every step; one-process sweep over 10 300 distinct resources The last resource is sometimes named by the empty string or by a name with unicode / separator / line break, and a sweep builds and exits one entry on each of 10 300 distinct resources in one process (past the registry's warning threshold).",
          "Exploration: generated interleavings of build/exit on 2-3 resources (inbound/outbound, batch 1..5, optional blocking rule of each family); after every step every resource node and the global inbound node are compared with an independent accounting model (in-flight, pass/block/complete/rt sums in the 10 s and default windows).",
          "Trusted: virtual clock; default window geometry; >= 20 s virtual gap between cases isolates the shared inbound node.",
          "5/C04"),
- "C05": ("proptest build/exit interleavings vs in-flight model; BlockError observed through a recording StatSlot in a copy of the global chain",
+ "C05": ("proptest build/exit interleavings vs in-flight model; BlockError observed through a recording StatSlot in a copy of the global chain; a third of the cases through the library's global slot chain A third of the cases run through the library's own global slot chain (error text judged), so the chain's assembly is covered.",
          "Exploration: generated isolation rule sets and hotspot concurrency rules (indices, keys, overrides, capacities) with build/exit interleavings; admit/reject decided both ways against an in-flight model, block type and triggered rule checked in the Err text and in the BlockError a custom StatSlot receives.",
          "Trusted: thresholds >= 1 as quantified; for hotspot batch n>1 both readings (entries vs +n) accepted between the two bounds.",
          "5/C05"),
@@ -37,11 +37,11 @@ CHECKS = {
          "Exploration: generated rates/intervals/queue limits and arrivals placed just before/at/after the previously scheduled slot; spacing, queue bound, legitimacy of every rejection and the actual delay of the caller (virtual clock before/after build()) are checked for flow throttling and hotspot QPS throttling.",
          "Trusted: virtual clock and virtual sleep; tolerance 2 ns (flow) / 1 ms (hotspot); wait exactly at the maximum accepted either way.",
          "5/C07"),
- "C13": ("proptest chains + exhaustive enumeration of all chains with <= 2 slots per kind; recorded call log judged against the contract",
+ "C13": ("proptest chains + exhaustive enumeration of all chains with <= 2 slots per kind; recorded call log judged against the contract; order values up to u32::MAX and arbitrary 32-bit palettes Order values also come from palettes of large and arbitrary 32-bit values (>= 2^31 included).",
          "Exploration with an exhaustive sub-domain: every chain with up to 2 slots of each kind over order values {0,1,7} and every Pass/Blocked/Wait assignment is enumerated; larger chains (up to 4 per kind, ties, arbitrary insertion interleavings) are generated. The call log of recording slots decides ordering, blocked-iff, provenance of the error and the exactly-once notifications.",
          "Trusted: mock check slots only return their result; an early stop right after a blocking slot is accepted.",
          "5/C13"),
- "C09": ("proptest inbound traffic histories; thresholds placed below/at/above the value the harness's own model predicts; injected load/CPU",
+ "C09": ("proptest inbound traffic histories; thresholds placed below/at/above the value the harness's own model predicts; injected load/CPU; a third of the cases through the library's global slot chain A third of the cases run through the library's own global slot chain.",
          "Exploration: system rules of all five metric types x both strategies are loaded with thresholds derived from the value the harness's independent model of the inbound node says the next probe will observe (below / equal / above), so every comparison operator and the BBR clause are exercised at the boundary; the block type, the named rule and the carried value are checked through a recording StatSlot; outbound probes must never be blocked.",
          "Trusted: virtual clock; sentinel_verif setters for load/CPU; the shared inbound node is isolated by >= 20 s of virtual time between cases.",
          "5/C09"),
@@ -57,7 +57,7 @@ CHECKS = {
          "Exploration: every family's rules with boundary numbers and hostile names/keys are serialised and parsed back through the datasource parser; equality is checked by PartialEq and field by field, dropped fields must equal Default, malformed documents must be Err (never a panic), and the parsed rule must make the same decisions as the original on a short entry script; metric lines are round-tripped with arbitrary counters.",
          "Trusted: hook exposing the parser and MetricItem fields; truncation judged on the compact form.",
          "5/C18"),
- "C20": ("proptest request/poll schedules over a scripted inner tower::Service with an isolation rule; InFlightModel; deterministic hand-rolled executor",
+ "C20": ("proptest request/poll schedules over a scripted inner tower::Service with an isolation rule; InFlightModel; deterministic hand-rolled executor; layer-built / cloned service, two resources, flow rule, clock advances The service is built by new or by the layer (optionally cloned), requests address one of two resources, a flow rule may cap admissions, the clock may advance (incl. beyond the 60 s statistic maximum) between operations; error and fallback identity and pass / completion totals are checked.",
          "Exploration (fault sequences): generated sequences of calls whose inner outcome is ready Ok/Err or pending-then-Ok/Err, polled in a generated order with several requests in flight; admitted iff Sentinel admits, inner call count, rejection output (fallback or Err) and the return of the in-flight count after Ok and after Err are checked after every step.",
          "Trusted: tower crate only (tonic not buildable offline); dropped futures are reported, not judged.",
          "5/C20"),
@@ -65,27 +65,27 @@ CHECKS = {
          "Exploration: generated (q, cold factor, period, grid) and multi-phase demand profiles (saturating, mid, below q/c, idle with gaps around 2p); per-second admission counts must satisfy the statement's invariants: never above q per window, never below about q/c when saturated, monotone ramp reaching q within 2p+2 s, cold again after >= 2p idle seconds, no rejection below q/c.",
          "Trusted: virtual clock; wall-second alignment; one-admission slack for integer truncation (q >= 10c as quantified).",
          "5/C08"),
- "C11": ("proptest differential / metamorphic: same script with and without an inserted reload on fresh resources at the same virtual instants; Arc::ptr_eq of controllers/breakers; threshold->0 / ->1e9 probes",
+ "C11": ("proptest differential / metamorphic: same script with and without an inserted reload on fresh resources at the same virtual instants; Arc::ptr_eq of controllers/breakers; threshold->0 / ->1e9 probes; replaced-rule, there-and-back and one-field-change probes with carry-over-independent bounds / fresh-resource reference Rule parameters come from menus; the reload may replace the first rule by a different one (probe burst with bounds that hold whatever is carried over), go there and back (threshold out of reach, then the original rules again, independently chosen entry points), or change exactly one parameter after 30 s idle (probe script compared with a fresh resource under the changed rule at the same clock phase).",
          "Exploration: eight scenarios (flow global/private window, throttling, warm-up, hotspot QPS reject/throttling/concurrency, circuit breaker) x reload position x reload API x treatment of unrelated resources x id refresh/reordering; the observation sequence (admission, block type, time slept, breaker states) must equal the reload-free run, enforcing objects must be the same Arc, and a changed threshold must act on the very next entry.",
          "Trusted: virtual clock; both runs start at the same bucket phase; a second rule only where evaluation order of a resource's rules cannot matter.",
          "5/C11"),
- "C17": ("exhaustive enumeration of the 1715-point configuration grid + proptest (entity / YAML, bucket phase); acceptance predicates; window behaviour probed on the initialising thread and on a second thread under the virtual clock",
+ "C17": ("long-lived thread across initialisations; exhaustive enumeration of the 1715-point configuration grid + proptest (entity / YAML, bucket phase); acceptance predicates; window behaviour probed on the initialising thread and on a second thread under the virtual clock",
          "Exploration with an exhaustive sub-domain: every grid point is initialised as ConfigEntity (all 1715) and generated points also through a YAML file; acceptance must agree with check() and with the statement's must-refuse / must-accept predicates; an accepted configuration must yield working entries and the configured window geometry (getters, accessor, and visibility of a recorded pass until its bucket leaves interval_ms / interval_ms_total) on the initialising thread and on another thread.",
          "Trusted: several configurations initialised one after another in one process on fresh resources; virtual clock; geometry accessor hook as cross-check.",
          "5/C17"),
- "C19": ("proptest write histories; queries enumerated exhaustively per history; crash-point (fault) enumeration over the journalled byte stream of the writer; journal-based placement oracle",
+ "C19": ("proptest write histories; queries enumerated exhaustively per history; crash-point (fault) enumeration over the journalled byte stream of the writer; journal-based placement oracle; reused searcher asked in ascending / descending / shuffled order; retention oracle; histories long enough for file numbers to pass 9 A reused searcher is asked the whole query list in three orders; retention may only remove the oldest files and must leave min(created, max_file_count); an eighth of the histories roll more than ten times a day.",
          "Fault enumeration: for every generated write history (size roll-overs, date roll-over, retention, gaps) every (begin, end, resource) and (begin, max_lines) query is checked against the surviving items; then every operation boundary, every interior byte of every index entry and sampled/all interior line bytes of the writer's journalled output are materialised as crash prefixes and searched: every item whose line and index entry are complete must be returned in order, at most one bogus (torn) item, never a panic.",
          "Trusted: the writer journal hook is the ground truth for the order of file operations; crash states are prefixes of that stream; one write() per second after the creation second.",
          "5/C19"),
- "C14": ("schedule-controlled execution (own cooperative scheduler over a std::sync shadow): exhaustive enumeration of all schedules with <= k preemptions + proptest-generated scenarios and preemption lists; end-state oracle",
+ "C14": ("schedule-controlled execution (own cooperative scheduler over a std::sync shadow): exhaustive enumeration of all schedules with <= k preemptions + proptest-generated scenarios and preemption lists; end-state oracle; stale ring slots (20 s, exactly one lap on the boundary, one lap), response-time totals Slots holding an old bucket (20 s old, exactly one ring lap old on the bucket boundary, one lap old) and small clock advances before exits are generated; totals (pass, complete, response time) are exact whenever no preemption made operations overlap.",
          "Exploration with an exhaustive bounded sub-domain: the harness owns the schedule (every Mutex/RwLock/atomic/Once/yield of sentinel-core is a schedule point), so interleavings are inputs: all schedules with <= 2 (quick) / 3 (thorough) preemptions of the 2-thread fresh-resource scenario are enumerated, and generated scenarios (2-3 threads, 1-2 build/exit pairs, inbound/outbound, existing resource, clock step) run under generated preemption lists. After join the shared node, in-flight count and totals are judged.",
          "Trusted: interleavings at the granularity of std sync operations, sequentially consistent; lazy_static/lru internals atomic; RwLock writer preference not modelled.",
          "5/C14, 2.4"),
- "C15": ("schedule-controlled execution: exhaustive k-bounded enumeration over every ordered pair of manager operations per family + proptest scenarios (2-3 threads, callbacks) ; deadlock / panic / health-probe verdicts; known findings keyed by callback shape",
+ "C15": ("schedule-controlled execution: exhaustive k-bounded enumeration over every ordered pair of manager operations per family + proptest scenarios (2-3 threads, callbacks) ; deadlock / panic / health-probe verdicts; known findings keyed by callback shape; std RwLock writer preference modelled The scheduler models std's writer preference (a new read waits while the lock is held and a writer is parked on it), so recursive reads behind a parked writer are deadlock verdicts.",
          "Exploration with an exhaustive bounded sub-domain: every ordered pair of the ten operations (load, load-for-resource, append, clear, clear-resource, get, get-resource, entry, entry with another family updated) x five families x (empty | preloaded) is run under all schedules with <= 1 (quick) / 2 (thorough) preemptions; generated 2-3 thread scenarios with listeners and custom generators add depth. A state in which every unfinished thread is blocked is a deadlock; panics and an unusable manager afterwards are violations.",
          "Trusted: as C14; liveness decided as the safety property 'no all-blocked state' in bounded scenarios; the two callback shapes recorded as known findings are excluded from exploration by construction and asserted by committed replays.",
          "5/C15, 2.4"),
- "C16": ("schedule-controlled execution: exhaustive k-bounded enumeration of three transition scenarios x three strategies + proptest schedules; listener-log path oracle",
+ "C16": ("schedule-controlled execution: exhaustive k-bounded enumeration of four transition scenarios (incl. a probe rejected by an isolation rule racing with a stale completion) x three strategies + proptest schedules; listener-log path oracle",
          "Exploration with an exhaustive bounded sub-domain: for each transition (several opening completions, several requests after the retry timeout, probe completion vs new request vs stale completion) and each strategy all schedules with <= 2 (quick) / 3 (thorough) preemptions are enumerated and 2-3 thread variants run under generated schedules; the listener log must be a path of the state machine ending in current_state(), with exactly one opener / one probe.",
          "Trusted: as C14; virtual clock fixed during the concurrent phase.",
          "5/C16, 2.4"),
